@@ -1,3 +1,4 @@
+import LokyModel.Lemmas.ExecTerm
 import LokyModel.Lemmas.ExecInv
 /-!
 # C01 — every future resolves and no API call hangs (executor protocol)
@@ -116,5 +117,45 @@ theorem C01_try_ops_never_block (s : St) (p : Pid) (h : s.w p = .eTry) :
   by_cases hz : s.mgmt = 0
   · right; unfold stepW; simp [h, hz]
   · left; unfold stepW; simp [h, acq]; omega
+
+
+/-! ### whole-run safety half of C01: no future is ever forgotten -/
+
+/-- **Every unresolved future is tracked.**  In every reachable state (any schedule, time-outs, crashes) a future
+    that has been created and is not resolved is still in the manager's table of pending work items: nothing the
+    manager, the feeder, a worker or a racing `cancel` / `shutdown` does can drop a future on the floor. -/
+theorem C01_unresolved_is_tracked (cfg : Cfg) (s : St) (h : Reachable cfg s) (i : Wid) (hi : i < s.futs.length)
+    (hn : (futOf s i).done = false) : i ∈ s.pending := by
+  apply Decidable.byContradiction
+  intro hm
+  have := (futInv_reachable h).resolved i hi hm
+  rw [hn] at this; cases this
+
+/-- **When the manager thread has ended, every future is resolved** — so when `shutdown(wait=True)`, the
+    interpreter-exit hook or a replacing `get_reusable_executor()` returns from joining it, no future handed out
+    by this executor is left pending.  (`mEnded`: the thread finished normally *or* died with an exception.) -/
+theorem C01_all_resolved_when_manager_ends (cfg : Cfg) (s : St) (h : Reachable cfg s) (he : mEnded s = true)
+    (i : Wid) (hi : i < s.futs.length) : (futOf s i).done = true := by
+  have ht : mTerm s.mpc = true := by
+    unfold mEnded at he; split at he <;> simp_all [mTerm]
+  have hp := termInv_reachable h ht
+  exact (futInv_reachable h).resolved i hi (by rw [hp]; simp)
+
+/-- … and already from the moment it enters `kill_workers()` / `join_executor_internals()`. -/
+theorem C01_all_resolved_in_final_phase (cfg : Cfg) (s : St) (h : Reachable cfg s) (ht : mTerm s.mpc = true)
+    (i : Wid) (hi : i < s.futs.length) : (futOf s i).done = true ∧ s.pending = [] := by
+  have hp := termInv_reachable h ht
+  exact ⟨(futInv_reachable h).resolved i hi (by rw [hp]; simp), hp⟩
+
+/-- The executor's `shutdown_lock` is a sound mutual exclusion: the kernel semaphore is 0 exactly while the ghost
+    owner is set, and every thread inside a section guarded by it is that owner.  A `submit` that passed the
+    broken/shutdown check keeps the lock until its work item is registered, so the flags cannot be raised in
+    between (`acc`), and the manager reaches its final phase only with the flag raised (`flag`). -/
+theorem C01_shutdown_lock_sound (cfg : Cfg) (s : St) (h : Reachable cfg s) : ShutInv s := shutInv_reachable h
+
+/-- non-vacuity: in the D7 witness the manager is in its final phase (blocked in the join of a worker that can
+    never leave) — and, as the theorem says, the one future is resolved and the table is empty -/
+example : (run (init cfgD7) schedD7).map (fun s => (mTerm s.mpc, s.futs.map Fut.done, s.pending)) =
+    some (true, [true], []) := by decide +kernel
 
 end LokyModel.Exec
